@@ -294,14 +294,49 @@ class CliResult:
         self.rc, self.out, self.err, self.exc = rc, out, err, exc
 
 
-def run_main(args, real_files: bool = False):
+def _open_tty():
+    """A pseudo-terminal: (text stream on the slave side, master fd, drain thread, list of byte chunks read from the master)."""
+    import fcntl
+    import os
+    import struct
+    import termios
+    import threading
+    m, sl = os.openpty()
+    attrs = termios.tcgetattr(sl)
+    attrs[1] &= ~termios.OPOST            # no "\n" -> "\r\n" translation: what is written is what is read
+    termios.tcsetattr(sl, termios.TCSANOW, attrs)
+    fcntl.ioctl(sl, termios.TIOCSWINSZ, struct.pack("HHHH", 24, 80, 0, 0))
+    chunks = []
+
+    def drain():
+        while True:
+            try:
+                b = os.read(m, 65536)
+            except OSError:               # EIO once the slave side is closed
+                break
+            if not b:
+                break
+            chunks.append(b)
+    th = threading.Thread(target=drain, daemon=True)
+    th.start()
+    return os.fdopen(sl, "w", encoding="utf-8", errors="surrogatepass", newline=""), m, th, chunks
+
+
+def run_main(args, real_files: bool = False, tty: bool = False):
     """graphtage.__main__.main(argv) in-process, observed at the boundary a user sees: stdout text, stderr text,
     return value / exit status, escaped exception.  Every call behaves like a fresh process as far as logging
     goes (basicConfig is effective only once per process, so the root handlers are cleared first)."""
     import graphtage.__main__ as gm
     from gv.core import CaseTimeout
     paths = None
-    if real_files:
+    ttys = None
+    if tty:
+        # the way a user at a terminal runs it: stdout and stderr are terminals (isatty() is true, so colour is on by default and
+        # tqdm draws its bars), status output on
+        out, mo, tho, co = _open_tty()
+        err, me, the, ce = _open_tty()
+        ttys = ((out, mo, tho, co), (err, me, the, ce))
+    elif real_files:
         # streams with a real file descriptor: StatusWriter only buffers and goes through tqdm.write() when its stream *is*
         # the process's stdout/stderr (this is the path every default command-line invocation takes)
         import os
@@ -335,6 +370,22 @@ def run_main(args, real_files: bool = False):
             except Exception:
                 pass
         root.handlers = saved
+    if ttys is not None:
+        import os
+        texts = []
+        for f, m, th, chunks in ttys:
+            try:
+                if not f.closed:
+                    f.close()
+            except Exception:
+                pass
+            th.join(10)
+            try:
+                os.close(m)
+            except OSError:
+                pass
+            texts.append(b"".join(chunks).decode("utf-8", "surrogatepass" if f is out else "replace"))
+        return CliResult(rc, texts[0], texts[1], exc)
     if paths is not None:
         import os
         texts = []
